@@ -18,7 +18,7 @@ TRUSTED = ["unicode-escape codec / unquote not modelled (texts with a backslash 
 ASSUMPTIONS = []
 
 UNITS = ["~0", "~1", "0", "1", "+", "-", "_", " ", "#", "é", "a", "9"]
-EXTRA_TOKENS = ["", "01", "-1", "-0", "10", "1_0", "+1", " 1", "1 ", "#0", "#a", "~0a", "a~1b", "\U0001F600", "00", "9007199254740993"]
+EXTRA_TOKENS = ["%41", "a%2Fb", "%7E0", "%", "", "01", "-1", "-0", "10", "1_0", "+1", " 1", "1 ", "#0", "#a", "~0a", "a~1b", "\U0001F600", "00", "9007199254740993"]
 DOCS = [{"a": {"b": [1, 2]}, "0": "zero", "1": [10, 20, {"a": 5}], "": {"": 7}, "~": {"/": 8}, "/": 9, "+1": 1, "-1": [3],
          "01": 4, " ": 5, "#": 6, "é": [0], "a/b": {"m~n": 1}},
         [[0, 1, [2, 3]], {"a": [4]}, "s", 5],
@@ -127,6 +127,12 @@ def to_sx(case):
 def _eval(e):
     k = e[0]
     if k == "parse":
+        # the same text was parsed before under the other decoding options: nothing of that may show in this parse
+        for kw in ({"uri_decode": True}, {"unicode_escape": not e[1]}, {"uri_decode": True, "unicode_escape": not e[1]}):
+            try:
+                JSONPointer(e[2], **kw).parts
+            except Exception:  # noqa: BLE001
+                pass
         return JSONPointer(e[2], unicode_escape=e[1])
     if k == "from-parts":
         return JSONPointer.from_parts([p[1] for p in e[2]], unicode_escape=e[1])
